@@ -176,3 +176,54 @@ Fixpoint tval_eqb (a b : tval) {struct a} : bool :=
          match l1, l2 with [], [] => true | e1 :: r1, e2 :: r2 => tval_eqb e1 e2 && go r1 r2 | _, _ => false end) ea eb
   | _, _ => false
   end.
+
+(* ---------------- reusable history step (used by Check04 and by the history theorems) ---------------- *)
+Inductive eop := OSet (p : list pstep) (x : tval) | OUnset (p : list pstep).
+
+(* a failed operation leaves the value unchanged *)
+Definition ast_step (front : bool) (v : tval) (o : eop) : tval :=
+  match o with
+  | OSet p x => match ast_set front p x v with Some (v', _) => v' | None => v end
+  | OUnset p => match ast_unset p v with DOk v' _ => v' | DErr => v end
+  end.
+
+(* all intermediate states of a history *)
+Fixpoint ast_states (front : bool) (v : tval) (ops : list eop) : list tval :=
+  match ops with
+  | [] => []
+  | o :: r => let v' := ast_step front v o in v' :: ast_states front v' r
+  end.
+
+(* API contract of an INSERTION (SetByPath on an absent last step): the new element has the type the
+   container declares, a field id is an int16, the raw key is a well-formed key of the map's key type,
+   and the count stays below 2^31 *)
+Definition ins_ok (s : pstep) (x : tval) (v : tval) : bool :=
+  match s, v with
+  | PField id, VStruct _ => in_sb 16 id
+  | PIndex _, VList et es => (type_of x =? et) && (zlen es + 1 <? 2 ^ 31)
+  | PIndex _, VSet et es => (type_of x =? et) && (zlen es + 1 <? 2 ^ 31)
+  | _, VMap kt vt es =>
+      (type_of x =? vt) && (zlen es + 1 <? 2 ^ 31) &&
+      match key_of_step kt s with Some kv => (type_of kv =? kt) && wf kv | None => true end
+  | _, _ => true
+  end.
+
+Fixpoint set_compat (p : list pstep) (x v : tval) : bool :=
+  match p with
+  | [] => true
+  | s :: p' =>
+    match lookup1 v s with
+    | LFound c _ => set_compat p' x c
+    | LNotFound => match p' with [] => ins_ok s x v | _ => true end
+    | LErr => true
+    end
+  end.
+
+Definition op_compat (v : tval) (o : eop) : bool :=
+  match o with OSet p x => wf x && set_compat p x v | OUnset _ => true end.
+
+Fixpoint history_ok (front : bool) (v : tval) (ops : list eop) : bool :=
+  match ops with
+  | [] => true
+  | o :: r => op_compat v o && history_ok front (ast_step front v o) r
+  end.
